@@ -172,7 +172,19 @@ TrEnd ==
             \* (with a debonding interval of 0 an entry created during epoch e ends at e and is due at the NEXT transition)
             <<\A x \in DebSet(M) : x[4] >= epoch /\ (echg => x[4] > epoch), "C15",
               "debonding entry not paid at the first epoch transition at or after its end epoch">>,
-            <<\A x \in DebSet(L) : StillQueued(x, M) \/ x[4] <= epoch, "C15", "debonding entry paid before its end epoch">>
+            <<\A x \in DebSet(L) : StillQueued(x, M) \/ x[4] <= epoch, "C15", "debonding entry paid before its end epoch">>,
+            \* C15 F7: a delegator whose debonding entries complete in this EndBlock is credited at least their value at the
+            \* price of the pools before EndBlock, rounded down per entry (withdrawals one after the other never lower a pool's
+            \* price; fee shares and returned deposits only add).  Not judged when an active pool shrank in EndBlock (a slash by
+            \* another application may precede the payout) or an escrow account of a completed entry has no active pool.
+            <<LET done == {x \in DebSet(L) : ~StillQueued(x, M)}
+                  ok(x) == x[1] \in DOMAIN L.acc /\ x[2] \in DOMAIN L.acc /\ x[1] \in DOMAIN M.acc /\ L.acc[x[2]].ds > 0 /\ L.acc[x[2]].ab > 0
+                  val(x) == (x[3] * L.acc[x[2]].db) \div L.acc[x[2]].ds
+                  quiet == \A a \in DOMAIN L.acc : a \in DOMAIN M.acc /\ M.acc[a].ab >= L.acc[a].ab
+              IN (quiet /\ \A x \in done : ok(x)) =>
+                     \A d \in {x[1] : x \in done} :
+                         Gen(M, d) - Gen(L, d) >= FoldSet(LAMBDA x, t : t + val(x), 0, {x \in done : x[1] = d}),
+              "C15", "a delegator whose debonding completed was credited less than the entries were worth">>
           >>)
     /\ UNCHANGED <<haveL, executed, epoch, drift, echg, rejfee, dbi>>
 
